@@ -65,7 +65,7 @@ let parse_tree (toks : string list) : AttrTree.anode =
 let trees : (string * AttrTree.anode) list ref = ref []
 let cur_variant = ref "P"
 let is_variant t =
-  t = "P" || t = "F" || (String.length t > 1 && t.[0] = 'B' && t.[1] >= '0' && t.[1] <= '9')
+  t = "P" || t = "F" || (String.length t > 1 && (t.[0] = 'B' || t.[0] = 'X') && t.[1] >= '0' && t.[1] <= '9')
 let get_tree () =
   try Stdlib.List.assoc !cur_variant !trees
   with Not_found -> failwith ("no TREE line for variant " ^ !cur_variant)
@@ -106,7 +106,10 @@ let parse_op (s : string) : AttrTree.aop =
   | ["IN"; c; isl] -> OIterNext (nat c, nat isl)
   | ["C"; from; x] -> OClone (nat from, x = "1")
   | ["F"; c] -> OFree (nat c)
-  | ["O"; _] -> OClearVolatile
+  | ["IS"; c; isl; ty; v] -> let ty = ty_of_char ty in OIterSet (nat c, nat isl, false, ty, val_of ty v)
+  | ["IK"; c; isl; ty; v] -> let ty = ty_of_char ty in OIterSet (nat c, nat isl, true, ty, val_of ty v)
+  | ["O"; _] -> OClearVolatile (nat "0")
+  | ["O"; _; c] -> OClearVolatile (nat c)
   | _ -> failwith ("bad attr op " ^ s)
 
 let path_str (p : coq_N list list) = String.concat "." (Stdlib.List.map hex_of_bytes p)
@@ -117,7 +120,7 @@ let show_dump (l : ((coq_N list list * AttrTree.atype) * AttrTree.aval) list) =
 let show_out (o : AttrTree.aop) (r : AttrTree.aout) (s : AttrTree.astate) : string =
   let open AttrTree in
   match o, r with
-  | OClearVolatile, AStatus st -> "O" ^ show_status st ^ "{" ^ show_dump (dump_set [] s.base) ^ "}"
+  | OClearVolatile _, AStatus st -> "O" ^ show_status st ^ "{" ^ show_dump (dump_set [] s.base) ^ "}"
   | _, AStatus st -> show_status st
   | _, AValue (st, ty, v) -> show_status st ^ ":" ^ char_of_ty ty ^ ":" ^ show_val v
   | _, AInfo (ty, i) -> char_of_ty ty ^ ":" ^ (if i then "1" else "0")
@@ -144,13 +147,13 @@ let run_ops (ops : (string * AttrTree.aop) list) : string list =
     let (r, s') = AttrTree.astep o !st in
     st := s';
     (match o, split_on ':' src with
-     | AttrTree.OClearVolatile, ["O"; idx] ->
+     | AttrTree.OClearVolatile c, ("O" :: idx :: _) ->
          (* the values the format reads from the new file *)
          let fr = try Stdlib.List.assoc idx !fresh with Not_found -> [] in
          Stdlib.List.iter (fun (p, tv) ->
            if tv.[0] <> 'd' then        (* directories are set by instantiate_path only *)
            let (_, v) = tyval_of_str tv in
-           let (_, s2) = AttrTree.astep (AttrTree.ODerive (path_of_str p, v)) !st in
+           let (_, s2) = AttrTree.astep (AttrTree.ODerive (c, path_of_str p, v)) !st in
            st := s2) fr
      | _ -> ());
     show_out o r !st) ops
@@ -214,7 +217,8 @@ let spec_history (ops : string list) (outs : string list) : string =
   Hashtbl.replace ctxs 0 Shared;
   let nctx = ref 1 in
   let refs : (int, view * coq_N list list) Hashtbl.t = Hashtbl.create 8 in
-  let iters : (int, view * coq_N list list * string list ref * bool ref) Hashtbl.t = Hashtbl.create 4 in
+  (* iterator: directory, keys yielded so far, the key it stands on (None: at the end) *)
+  let iters : (int, view * coq_N list list * string list ref * string option ref) Hashtbl.t = Hashtbl.create 4 in
   let dict = function Shared -> shared | Private c -> Hashtbl.find privs c in
   let under_ax p = match p with c :: _ -> c = s_addrxlat | [] -> false in
   (* which dictionary does a context see a path in? *)
@@ -243,8 +247,6 @@ let spec_history (ops : string list) (outs : string list) : string =
   let xnote x = if x then " (the root directory reached through a KDUMP_CLONE_XLAT clone)" else "" in
   Stdlib.List.iteri (fun idx (op, out) ->
     let f = split_on ':' op in
-    (* an interrupted listing is not judged *)
-    (match f with "IN" :: _ -> () | _ -> Hashtbl.iter (fun _ (_, _, _, fresh) -> fresh := false) iters);
     match f with
     | ["S"; c; k; ty; v] ->
         let c = int_of_string c and ty = ty_of_char ty in
@@ -291,6 +293,7 @@ let spec_history (ops : string list) (outs : string list) : string =
           | ["IR"; _; _; sl] -> xroot := Hashtbl.mem xrefs (int_of_string sl); Some (Hashtbl.find refs (int_of_string sl))
           | _ -> bad "bad op %s" op in
         let xr = !xroot in
+        Hashtbl.remove iters (int_of_string isl);
         (match a with
          | None -> if String.length out > 1 && String.sub out 0 2 = "0:" then bad "%s: iteration over a key that does not exist" op
          | Some (v, p) ->
@@ -298,37 +301,64 @@ let spec_history (ops : string list) (outs : string list) : string =
               | Some e when e.AttrSpec.e_set && e.AttrSpec.e_ty = AttrTree.TDir ->
                   (match split_on ':' out with
                    | ["0"; key; st2; ty; value] ->
-                       let seen = ref [] in
-                       Hashtbl.replace iters (int_of_string isl) (v, p, seen, ref true);
-                       if key <> "end" then begin
-                         seen := [key];
+                       let cur = if key = "end" then None else Some key in
+                       Hashtbl.replace iters (int_of_string isl) (v, p, ref (match cur with Some k -> [k] | None -> []), ref cur);
+                       (* the first child with a value, in the order of the directory *)
+                       (match v with
+                        | Shared ->
+                            let want = match AttrSpec.dl_first (AttrSpec.dl_kids p !(dict v)) with
+                              | Some k -> hex_of_bytes k | None -> "end" in
+                            if want <> key then bad "%s: the iteration starts at %s, the first child with a value is %s" op key want
+                        | Private _ ->
+                            if key = "end" && AttrSpec.dl_children p !(dict v) <> [] then
+                              bad "%s: the directory has set children but the iteration is empty" op);
+                       if key <> "end" then
                          expect (op ^ " (value at the iterator position)")
                            (show_get (get (v, p @ [bytes_of_hex key]))) (st2 ^ ":" ^ ty ^ ":" ^ value)
-                       end else if AttrSpec.dl_children p !(dict v) <> [] then
-                         bad "%s: the directory has set children but the iteration is empty" op
                    | _ -> bad "%s: a set directory cannot be iterated (%s)%s" op out (xnote xr))
               | _ -> if String.length out > 1 && String.sub out 0 2 = "0:" then
                     bad "%s: iteration started on something that is not a set directory" op))
     | ["IN"; _; isl] ->
         (match Hashtbl.find_opt iters (int_of_string isl) with
          | None -> ()
-         | Some (v, p, seen, fresh) ->
-             (match split_on ':' out with
-              | ["0"; "end"; _; _; _] ->
-                  if !fresh then begin
-                    let want = Stdlib.List.sort compare (Stdlib.List.map hex_of_bytes (AttrSpec.dl_children p !(dict v))) in
-                    let got = Stdlib.List.sort compare !seen in
-                    if want <> got then
-                      bad "iteration over %s yielded %d keys, the directory has %d set children"
-                        (path_str p) (Stdlib.List.length got) (Stdlib.List.length want)
-                  end;
-                  Hashtbl.remove iters (int_of_string isl)
-              | ["0"; key; st2; ty; value] ->
-                  if Stdlib.List.mem key !seen then bad "iteration over %s yielded %s twice" (path_str p) key;
-                  seen := key :: !seen;
-                  expect (op ^ " (value at the iterator position)")
-                    (show_get (get (v, p @ [bytes_of_hex key]))) (st2 ^ ":" ^ ty ^ ":" ^ value)
-              | _ -> ()))
+         | Some (v, p, seen, cur) ->
+             (match !cur with
+              | None -> if String.length out > 1 && String.sub out 0 2 = "0:" then bad "%s: a step beyond the end succeeded" op
+              | Some ck ->
+                  (* the next child with a value after the current one, whatever happened to the current one *)
+                  let kids = AttrSpec.dl_kids p !(dict v) in
+                  (match split_on ':' out with
+                   | ["0"; key; st2; ty; value] ->
+                       (match v with
+                        | Shared ->
+                            let want = match AttrSpec.dl_next_from (bytes_of_hex ck) kids with
+                              | Some k -> hex_of_bytes k | None -> "end" in
+                            if want <> key then
+                              bad "%s: after %s the iteration over %s yields %s; the next child with a value is %s"
+                                op ck (path_str p) key want
+                        | Private _ ->
+                            if key <> "end" && not (Stdlib.List.exists (fun (k, st) -> st && hex_of_bytes k = key) kids) then
+                              bad "%s: the iteration yields %s, which has no value" op key);
+                       if key <> "end" then begin
+                         if Stdlib.List.mem key !seen then bad "iteration over %s yielded %s twice" (path_str p) key;
+                         seen := key :: !seen;
+                         expect (op ^ " (value at the iterator position)")
+                           (show_get (get (v, p @ [bytes_of_hex key]))) (st2 ^ ":" ^ ty ^ ":" ^ value)
+                       end;
+                       cur := (if key = "end" then None else Some key)
+                   | _ ->
+                       bad "%s: the iteration over %s stopped with %s after %s although the end was not reached"
+                         op (path_str p) out ck)))
+    | ["IS"; c; isl; ty; v] | ["IK"; c; isl; ty; v] ->
+        ignore c;
+        (match Hashtbl.find_opt iters (int_of_string isl) with
+         | Some (vw, p, _, cur) ->
+             (match !cur with
+              | Some ck ->
+                  let ty = ty_of_char ty in
+                  expect op (show_status (check_set (vw, p @ [bytes_of_hex ck]) ty (val_of ty v))) out
+              | None -> ())
+         | None -> ())
     | ["C"; from; x] ->
         let c = !nctx in incr nctx;
         expect op ("c" ^ string_of_int c) out;
@@ -346,7 +376,11 @@ let spec_history (ops : string list) (outs : string list) : string =
         end else
           Hashtbl.replace ctxs c (Hashtbl.find ctxs (int_of_string from))
     | ["F"; c] -> Hashtbl.remove ctxs (int_of_string c)
-    | ["O"; i] ->
+    | ("O" :: i :: octx) ->
+        let via = match octx with [c] -> int_of_string c | _ -> 0 in
+        (match Hashtbl.find ctxs via with
+         | Private k -> let d = Hashtbl.find privs k in d := AttrSpec.dl_clear_volatile !d
+         | Shared -> ());
         (* re-open: values of the new file, plus what the application had set *)
         let fr = try Stdlib.List.assoc i !fresh with Not_found -> bad "no FRESH line for file %s" i in
         let after = AttrSpec.dl_clear_volatile !shared in
